@@ -104,9 +104,11 @@ def run(ctx: Ctx) -> None:
     ctx.rule = ("random construction programs on one circuit (1-8 modes, 0-40 calls, all component kinds, both "
                 "conventions, unitary blocks via add(Unitary), ~15% invalid calls); non-trivial = at least 3 "
                 "accepted matrix-changing calls; distinct = distinct op list")
-    N = ctx.n(250, 6000)
+    N = ctx.n(250, 3500)
     rng = ctx.rng
     for i in range(N):
+        if ctx.out_of_time():
+            break
         prog = gen_program(ctx, rng)
         probs = run_case(ctx, prog)
         ops = [op[0] for op in prog]
